@@ -330,6 +330,18 @@ def steer_panel(tier):
             options={"max_fun_evals": 70, "noise_final_samples": 2}, tags=["gp_nonfinite", "specified", "zero_actual_noise"])
         add(2, box, {"family": "const", "c": 2.0}, noise={"mode": "declared", "sigma": 0.5, "actual": 0.0},
             options={"max_fun_evals": 70, "noise_final_samples": 2}, tags=["gp_nonfinite", "declared", "zero_actual_noise"])
+        # user output function: stops the run at initialisation / never stops
+        add(2, box, _quad(2, r), options={"_output_fcn": "stop_init", "max_fun_evals": 40}, tags=["output_fcn", "stop_init"])
+        add(2, box, _quad(2, r), options={"_output_fcn": "never", "max_fun_evals": 40}, tags=["output_fcn"])
+        add(2, box, _quad(2, r, cond=4.0), noise={"mode": "declared", "sigma": 0.5},
+            options={"_output_fcn": "stop_init", "max_fun_evals": 60, "noise_final_samples": 2}, tags=["output_fcn", "stop_init", "declared"])
+        # stochastic MADS success rule
+        add(2, box, _quad(2, r, cond=4.0), noise={"mode": "declared", "sigma": 0.5},
+            options={"stobads": True, "max_fun_evals": 80, "noise_final_samples": 2}, tags=["stobads"])
+        add(2, box, _quad(2, r, cond=4.0), noise={"mode": "declared", "sigma": 0.5},
+            options={"stobads": True, "opp_stobads": False, "max_fun_evals": 80, "noise_final_samples": 2}, tags=["stobads", "noopp"])
+        # a single evaluation
+        add(2, box, _quad(2, r), options={"max_fun_evals": 1}, tags=["budget_one"])
         # poll with few / no candidates: tiny tight box, incumbent in a corner
         g = {"lb": [0, 0], "ub": [1, 1], "plb": [0, 0], "pub": [1, 1], "x0": [0.999, 0.999]}
         add(2, g, {"family": "linear", "w": [-1.0, -1.0]}, options={"max_fun_evals": 60}, tags=["corner"])
